@@ -29,8 +29,8 @@ class Selection:
         self.allowed = set()  # ("body", name) / ("factory", name)
         self.seen = set()
 
-    def value(self, nid):
-        ok, v = self.t.raw(nid, self.o)
+    def value(self, nid, o=None):
+        ok, v = self.t.raw(nid, self.o if o is None else o)
         return ok, v
 
     def allow_all(self, nid, seen=None):
@@ -52,12 +52,22 @@ class Selection:
         if n["k"] == "opt" and (n.get("default") or {}).get("t") == "factory":
             self.allowed.add(("factory", f"fac_{n['id']}"))
 
-    def walk(self, nid):
-        if nid in self.seen:
+    def walk(self, nid, o=None):
+        """o: the options in effect at this node (the caller's, overlaid by enclosing pre-set / default / Map options)."""
+        o = self.o if o is None else o
+        mark = (nid, U.crepr_json(o))
+        if mark in self.seen:
             return
-        self.seen.add(nid)
+        self.seen.add(mark)
         n = self.by[nid]
         k = n["k"]
+        outer_o, self.o = self.o, o  # the helpers below read self.o
+        try:
+            self._walk(n, nid, k)
+        finally:
+            self.o = outer_o
+
+    def _walk(self, n, nid, k):
         if k == "opt":
             dom = n.get("domain") or {}
             if dom.get("t") == "expr":
@@ -142,6 +152,16 @@ class Selection:
         elif k == "cached":
             self.walk(n["inner"])
         elif k == "dataset":
+            if (n.get("options") or n.get("default_options")) and not n.get("_inside"):
+                o2 = U.overlay(U.overlay(n.get("default_options") or {}, self.o), n.get("options") or {})
+                inner = dict(n, _inside=True)
+                self.by[nid] = inner
+                try:
+                    self.seen.discard((nid, U.crepr_json(o2)))
+                    self.walk(nid, o2)
+                finally:
+                    self.by[nid] = n
+                return
             disp = n.get("dispatch")
             impl = None
             if disp is not None:
@@ -171,7 +191,33 @@ class Selection:
                 self.allowed.add(("body", impl["fn"]))
                 for c in impl.get("args", {}).values():
                     self.walk(c)
-        else:  # node kinds outside the model (option-rewriting ones are not generated here)
+        elif k == "withopts":
+            o2 = U.overlay(self.o, n["options"]) if n.get("force", True) else U.overlay(n["options"], self.o)
+            self.walk(n["inner"], o2)
+        elif k == "derive":
+            o2 = U.overlay(self.o, n["options"]) if n["how"] == "with_options" else U.overlay(n["options"], self.o)
+            self.walk(n["base"], o2)
+        elif k == "map":
+            import itertools
+
+            lists = []
+            for key, it in n["iterables"].items():
+                self.walk(it)
+                ok, v = self.value(it)
+                try:
+                    lists.append([(key, x) for x in v] if ok else None)
+                except TypeError:
+                    lists.append(None)
+            if any(l is None for l in lists):
+                return
+            for combo in itertools.product(*lists):
+                o2 = self.o
+                for key, x in combo:
+                    top = {}
+                    U.set_path(top, key, x)
+                    o2 = U.overlay(o2, top)
+                self.walk(n["target"], o2)
+        else:  # node kinds outside the model
             self.allow_all(nid)
 
 
@@ -202,10 +248,10 @@ class C06(HistoryProperty):
         "with_options, >>, +, overload/register, interface / implementation / dataset-class definition run no stub at all. For apply "
         "roots, the source's bodies precede the step parameters' bodies in the cold log. Sampling, not proof."
     )
-    LEVEL_NOTE = "Programs here contain no option-rewriting nodes (pre-sets, with_options, Map), so every construct is evaluated under the caller's dictionary and the 40-line selection model needs no effective-options tracking. The model over-approximates the allowed set wherever it is unsure."
+    LEVEL_NOTE = "The selection model tracks the options in effect through pre-set / default options, with_options derivations, wrappers and Map elements with the independent overlay of labsim.universe (whose agreement with labrea is C08's subject); it over-approximates the allowed set wherever it is unsure (templated dispatch values, failed coalesce members, unknown node kinds)."
     DESIGN_REF = "3 C06"
     RULE = (
-        "case = program spec (no pre-sets / Map) + evaluate history; distinct = hash of (spec, dictionaries); non-trivial = "
+        "case = program spec + evaluate history; distinct = hash of (spec, dictionaries); non-trivial = "
         "histories in which at least one op had a non-empty armed set"
     )
     ASSUMPTIONS = ["hashable dispatch values, type-consistent dictionaries, template-closed dictionaries"]
@@ -214,8 +260,10 @@ class C06(HistoryProperty):
     NONTRIVIAL_MEASURE = "history_with_armed_faults"
 
     def gen_case(self, rng, tier):
-        cfg = gen.swarm_cfg(rng, off=("shape_change", "alloptions", "dangling", "withopts", "derive", "map", "presets", "default_presets", "tmpl_preset"),
-                            on=("dispatch", "overloads", "opt_default_expr"))
+        cfg = gen.swarm_cfg(rng, off=("shape_change", "alloptions", "dangling", "tmpl_preset"), on=("dispatch", "overloads", "opt_default_expr"))
+        if rng.random() < 0.4:  # a share of the programs without option-rewriting nodes at all (the simplest setting)
+            cfg["kinds"] = [k for k in cfg["kinds"] if k not in ("withopts", "derive", "map")]
+            cfg["presets"] = cfg["default_presets"] = False
         spec = gen.gen_spec(rng, cfg)
         if rng.random() < 0.4:
             # chained >> : x >> step1(p=dataset) >> step2(p=dataset): each input must exist before the step applied to it
@@ -253,7 +301,7 @@ class C06(HistoryProperty):
         return {"cfg": cfg, "spec": spec, "ops": ops}
 
     def spec_valid(self, spec):
-        if any(n["k"] in ("withopts", "derive", "map", "alloptions") or (n["k"] == "dataset" and (n.get("options") or n.get("default_options"))) for n in spec["nodes"]):
+        if any(n["k"] == "alloptions" for n in spec["nodes"]):
             return False
         return gen.spec_ok(spec)
 
@@ -324,7 +372,7 @@ class C06(HistoryProperty):
                             src_names = self._dataset_names(spec, [m["src"]])
                             par_names = self._dataset_names(spec, gen._fn_children(m["fn"]))
                             # producing the input includes running the steps of the applies beneath the source
-                            src_steps = self._step_names(spec, m["src"])
+                            src_steps = self._step_names(spec, m["src"]) - self._all_step_names(spec, gen._fn_children(m["fn"]))
                             a = [j for j, ev in enumerate(cold.log.events) if ev[0] == "call" and ((ev[2] == "body" and ev[3] in src_names - par_names) or (ev[2] == "step" and ev[3] in src_steps))]
                             b = [j for j, ev in enumerate(cold.log.events) if ev[0] == "call" and ev[2] == "body" and ev[3] in par_names - src_names]
                             if a and b:
@@ -354,6 +402,26 @@ class C06(HistoryProperty):
                 if g["t"] in ("fn", "step"):
                     names.add(g["name"])
             n = by[n["src"]]
+        return names
+
+    @staticmethod
+    def _all_step_names(spec, starts):
+        """Names of every step stub reachable beneath the given nodes (shared sub-expressions run there too)."""
+        by = {n["id"]: n for n in spec["nodes"]}
+        seen, names = set(), set()
+        stack = list(starts)
+        while stack:
+            i = stack.pop()
+            if i in seen:
+                continue
+            seen.add(i)
+            n = by[i]
+            if n["k"] == "apply":
+                f = n["fn"]
+                for g in ([f] if f["t"] != "pipeline" else f["steps"]):
+                    if g["t"] in ("fn", "step"):
+                        names.add(g["name"])
+            stack.extend(gen.children(n))
         return names
 
     @staticmethod
